@@ -499,7 +499,7 @@ pub fn consumption_check(re: &Regex, text: &str, full: &[Item], taken: usize, j:
     };
     budget::install();
     let rest = &full[taken..];
-    for mode in 0..3 {
+    for mode in 0..5 {
         let mut it = re.find_iter(text);
         let mut ok_prefix = true;
         for k in 0..taken {
@@ -521,7 +521,25 @@ pub fn consumption_check(re: &Regex, text: &str, full: &[Item], taken: usize, j:
         let (what, got, want): (&str, Outcome<String>, String) = match mode {
             0 => ("count()", guarded_plain(|| format!("{}", it.count())), format!("{}", rest.len())),
             1 => ("last()", guarded_plain(|| format!("{:?}", item_of(it.last()))), format!("{:?}", rest.last().cloned())),
-            _ => ("nth(j)", guarded_plain(|| format!("{:?}", item_of(it.nth(j)))), format!("{:?}", rest.get(j).cloned())),
+            2 => ("nth(j)", guarded_plain(|| format!("{:?}", item_of(it.nth(j)))), format!("{:?}", rest.get(j).cloned())),
+            3 => (
+                "for_each collection",
+                guarded_plain(|| {
+                    let mut v = Vec::new();
+                    it.for_each(|x| v.push(item_of(Some(x)).unwrap()));
+                    format!("{:?}", v)
+                }),
+                format!("{:?}", rest.to_vec()),
+            ),
+            _ => (
+                // the hint must bracket what is really left
+                "size_hint() bracketing the remaining items",
+                guarded_plain(|| {
+                    let (lo, hi) = it.size_hint();
+                    format!("{}", lo <= rest.len() && hi.map_or(true, |h| h >= rest.len()))
+                }),
+                "true".to_string(),
+            ),
         };
         budget::disarm();
         match got {
